@@ -109,10 +109,10 @@ PROPS["C14"] = {
                   "Lean 4 on an index-faithful model of redactemail.go. PARTIAL: domains cut by the end of the text, the exact extent "
                   "of the span and soundness (only such addresses are redacted) are decided by the "
                   "correspondence run, whose oracle compares the implementation with a reference redactor written from the "
-                  "property's wording. Two recorded deviations from the letter of 'domain not purely numeric' are known findings.",
+                  "property's wording. The two deviations from the letter of 'domain not purely numeric' that were known findings (F-22) are repaired; legacy_F22 keeps the old test as a witness, C14_numeric_test_is_the_letter states what the test is now.",
     "level_note": "Trusted: Lean kernel + 3 standard axioms; sampled model-code correspondence; the formalisation of the supported "
                   "address shape (harness oracle / DESIGN.md C14).",
-    "partial": "completeness proved for dotted and for truncated domains that are not number-like; soundness by the reference-redactor oracle",
+    "partial": "completeness proved for dotted and for truncated domains that are not purely numeric; soundness by the reference-redactor oracle",
     "assumptions": [],
 }
 
